@@ -447,3 +447,18 @@ V("C10-second-moment-no-cov", ["C10"], "ivector", "sigma_w_ij2 = I_TtSigmaInvNT_
 V("C10-project-not-solved", ["C10"], "ivector", "return np.linalg.solve(compute_id_tt_sigma_inv_t(stats, self.T, self.sigma), compute_tt_sigma_inv_fnorm(self.ubm.means, stats, self.T, self.sigma))", "return compute_tt_sigma_inv_fnorm(self.ubm.means, stats, self.T, self.sigma)", "projection returns the linear term without solving")
 V("C10-project-inv-form", ["C10"], "ivector", "return np.linalg.solve(compute_id_tt_sigma_inv_t(stats, self.T, self.sigma), compute_tt_sigma_inv_fnorm(self.ubm.means, stats, self.T, self.sigma))", "return np.linalg.inv(compute_id_tt_sigma_inv_t(stats, self.T, self.sigma)) @ compute_tt_sigma_inv_fnorm(self.ubm.means, stats, self.T, self.sigma)", "inverse times linear term", kind="benign")
 V("C10-accumulate-fnorm-transposed", ["C10"], "ivector", "np.matmul(Fnorm[:, :, None], sigma_w_ij[None, :])", "np.matmul(Fnorm[:, :, None], np.ones_like(sigma_w_ij)[None, :])", "Fnorm E[w]' accumulator loses E[w]")
+
+# ----------------------------------------------------------------------------- C19
+V("C19-init-uncopied", ["C19"], "kmeans", "        init = self.init_method\n        if isinstance(init, np.ndarray):\n            init = init.copy()\n", "        init = self.init_method\n", "revert of fix ef2bc80: centroids alias the caller's initial-centroid array")
+V("C19-sigma-aliases-ubm", ["C19"], "ivector", "self.sigma = copy.deepcopy(self.ubm.variances)", "self.sigma = self.ubm.variances", "i-vector covariances alias the UBM's variance array (and are then clamped in place)")
+V("C19-residual-inplace", ["C07", "C09"], "factor_analysis", "fn_y_i = f_acc_i.flatten() - tmp_CD * (m + D * latent_z_i)", "fn_y_i = f_acc_i.ravel()\n        fn_y_i -= tmp_CD * (m + D * latent_z_i)", "residual computed in place on a view of the accumulated statistics", may_be_undecided=False)
+V("C19-residual-copy-ravel", ["C19"], "factor_analysis", "fn_y_i = f_acc_i.flatten() - tmp_CD * (m + D * latent_z_i)", "fn_y_i = f_acc_i.copy().ravel()\n        fn_y_i -= tmp_CD * (m + D * latent_z_i)", "in place on a private copy", kind="benign")
+V("C19-ubm-trained-unguarded", ["C19"], "factor_analysis", "        if self.ubm._means is None:\n            logger.info('UBM means are None, training the UBM.')\n            self.ubm.fit(X)", "        if self.ubm._means is None or self.ubm_kwargs is not None:\n            logger.info('UBM means are None, training the UBM.')\n            self.ubm.fit(X)", "a trained UBM passed by the caller is retrained")
+V("C19-ubm-always-trained", ["C19"], "factor_analysis", "        if self.ubm._means is None:\n            logger.info('UBM means are None, training the UBM.')\n            self.ubm.fit(X)", "        logger.info('training the UBM.')\n        self.ubm.fit(X)", "the caller's UBM is always retrained")
+V("C19-data-centred-inplace", ["C19"], "whitening", "        mu = numerical_module.mean(X, axis=0)", "        mu = numerical_module.mean(X, axis=0)\n        X -= mu", "training data centred in place")
+V("C19-stats-normalised-inplace", ["C19"], "linear_scoring", "    sum_px = np.array([stat.sum_px for stat in test_stats])", "    for stat in test_stats:\n        stat.sum_px /= max(stat.t, 1)\n    sum_px = np.array([stat.sum_px for stat in test_stats])", "probe statistics normalised in place")
+V("C19-labels-sorted-inplace", ["C19"], "wccn", "        possible_labels = set(y)", "        y.sort()\n        possible_labels = set(y)", "label sequence sorted in place")
+V("C19-centroids-from-data-view", ["C19"], "kmeans", "self.centroids_ = k_init(X=data, n_clusters=self.n_clusters, init=init,", "self.centroids_ = data[:self.n_clusters] if False else k_init(X=data, n_clusters=self.n_clusters, init=init,", "contrived", kind="skip")
+V("C19-wccn-subtract-alias", ["C19"], "whitening", "        self.input_subtract = mu", "        self.input_subtract = X[0]", "stored centre is a view of the first training row")
+V("C19-map-means-alias-stats", ["C19"], "gmm", "        machine.means = statistics.sum_px / thresholded_n[:, None]", "        machine.means = statistics.sum_px\n        machine.means /= thresholded_n[:, None]", "ML means computed in place on the (internal, fresh) statistics' first-order array", kind="benign")
+V("C19-jfa-latent-shared", ["C19"], "factor_analysis", "            latent_z = self.update_z(X=X, y=y, latent_x=latent_x, latent_y=latent_y, latent_z=latent_z, n_acc=n_acc, f_acc=f_acc)\n        return (latent_y[0], latent_z[0])", "            latent_z = self.update_z(X=X, y=y, latent_x=latent_x, latent_y=latent_y, latent_z=latent_z, n_acc=n_acc, f_acc=f_acc)\n        return (latent_y[0], latent_z[0].copy())", "returned offset copied", kind="benign")
